@@ -117,6 +117,12 @@ impl SecondaryStorage {
             dvs_to_open.len()
         );
 
+        // RowSets committed by an INSERT that raced with a DROP TABLE belong to no table
+        {
+            let tables = engine.tables.read();
+            rowsets_to_open.retain(|_, entry| tables.contains_key(&entry.table_id));
+        }
+
         // DVs of RowSets that no longer exist have no effect (older versions left such records
         // behind after compaction)
         dvs_to_open.retain(|(table_id, rowset_id, _), _| {
